@@ -21,7 +21,7 @@ CLASSES = ["box", "extrude", "revolve", "wedge", "cylinder", "semicylinder", "fr
            "chain:cylinder", "chain:elbow", "chain:frustum", "chain:hemisphere", "chain:4", "ring:chain", "ring:expand", "ring:contract",
            "ring:fill", "cyl:expand"]
 REQUIRED = ["judged:jacobians", "judged:connected", "judged:no-duplicate-vertices", "judged:arc-on-circle", "judged:chops-sufficient",
-            "judged:interface", "judged:vertex-count", "judged:sweep-arc-about-the-axis", "judged:chained-to-a-start-face"] + [f"class:{c}" for c in CLASSES]
+            "judged:interface", "judged:vertex-count", "judged:sweep-arc-about-the-axis", "judged:chained-to-a-start-face", "judged:outer-arcs-after-remove_inner_edges"] + [f"class:{c}" for c in CLASSES]
 MIN_KEYS = 60
 RULE = (
     "every predefined class (Box, Extrude, Revolve, Wedge, Cylinder, SemiCylinder, Frustum, Elbow, ExtrudedRing, RevolvedRing, "
@@ -50,6 +50,10 @@ def fixed_cases(tier):
         for sf in (True, False):
             for k in range(2 if tier == "quick" else 12):
                 out.append({"cls": cls, "seed": 7001 + 17 * k + (5 if sf else 0), "chop": ["count", "size"][k % 2], "start_face": sf})
+    # seeds divisible by 3: remove_inner_edges() before writing / a shell around a ring
+    for cls in ("extrudedring", "cylinder", "elbow", "shell"):
+        for k in range(3 if tier == "quick" else 15):
+            out.append({"cls": cls, "seed": 3 * (9001 + 7 * k), "chop": ["count", "size"][k % 2]})
     return out
 
 
@@ -76,6 +80,13 @@ def build(case, cb):
     a1, a2 = o, o + fr[2] * L
     rp = o + fr[0] * r
     info["size"] = max(r, L)
+
+    def strip_inner(shape):
+        # documented preparation for moving end-plane points: drops the curved edges INSIDE the start / end sketch; the outer
+        # rim keeps its arcs (judged below on info["circles"])
+        if case["seed"] % 3 == 0:
+            shape.remove_inner_edges()
+            info["stripped"] = True
 
     def chop3(shape):
         shape.chop_axial(**kw(L))
@@ -107,6 +118,7 @@ def build(case, cb):
             r2 = r * rng.uniform(0.4, 0.8)
             sh = cb.Frustum(list(a1), list(a2), list(rp), r2, r * 0.9 if cls == "frustum-mid" else None)
         chop3(sh)
+        strip_inner(sh)
         info["circles"] = [(a1, fr[2], r), (a2, fr[2], r2)]
         return [sh], info
     if cls == "elbow":
@@ -115,6 +127,7 @@ def build(case, cb):
         r2 = r * rng.uniform(0.6, 1.2)
         sh = cb.Elbow(list(o), list(rp), list(fr[2]), sweep, list(arc_c), list(fr[1]), r2)
         chop3(sh)
+        strip_inner(sh)
         c2 = geom.rotate(o, fr[1], sweep, arc_c)
         n2 = geom.rotate_vec(fr[2], fr[1], sweep)
         info["circles"] = [(o, fr[2], r), (c2, n2, r2)]
@@ -124,6 +137,7 @@ def build(case, cb):
         n = rng.randint(3, 12)
         sh = cb.ExtrudedRing(list(a1), list(a2), list(rp), ri, n_segments=n)
         chop3(sh)
+        strip_inner(sh)
         info["circles"] = [(a1, fr[2], r), (a2, fr[2], r), (a1, fr[2], ri), (a2, fr[2], ri)]
         info["detail"] = n
         info["expect_vertices"] = 4 * n
@@ -156,6 +170,16 @@ def build(case, cb):
         chop3(sh)
         info["expect_vertices"] = 35
         return [sh], info
+    if cls == "shell" and case["seed"] % 3 == 0:
+        # a shell around the outer faces of a ring (their common corners come out of separate computations)
+        n = rng.randint(4, 11)
+        ring = cb.ExtrudedRing(list(a1), list(a2), list(rp), r * 0.5, n_segments=n)
+        chop3(ring)
+        faces = [op.get_face("right") for op in ring.operations]
+        sh = cb.Shell(faces, rng.uniform(0.1, 0.3) * r)
+        sh.chop(**kw(0.3))
+        info["detail"] = f"ring-{n}"
+        return [ring, sh], info
     if cls == "shell":
         box = cb.Box(list(o), list(o + np.array([rng.uniform(0.6, 1.5) for _ in range(3)])))
         for a in range(3):
@@ -342,6 +366,8 @@ def run_case(ctx, case):
     ctx.count("judged:chops-sufficient")
     if info.get("start_face"):
         ctx.count("judged:chained-to-a-start-face")
+    if info.get("stripped"):
+        ctx.count("judged:outer-arcs-after-remove_inner_edges")
     ctx.key([cls, info["detail"], case["chop"], bool(info.get("start_face"))])
     ctx.sample({"cls": cls, "seed": case["seed"], "chop": case["chop"], "detail": info["detail"]})
     if got != "success":
